@@ -323,6 +323,31 @@ void runCase(long long i, Prng& r, const Args& a) {
   // ---- the assignment family, groups and tangents ----------------------------------------------------------------------
   assignMatrix<MonG>("group", X, Y, kx, ky);
   assignMatrix<MonT>("tangent", t, s, kt, r.below(3));
+  // ---- a view views: its data() is the user's pointer, and it sees what is written to the buffer after it was created ---------------
+  {
+    bx.load(X.coeffs()); bt.load(t.coeffs());
+    const Eigen::Map<const MonG> cX(bx.p); Eigen::Map<MonG> mX(bx.p); const Eigen::Map<const MonT> ct(bt.p); Eigen::Map<MonT> mt(bt.p);
+    const Eigen::Map<MonG>& kmX = mX; const Eigen::Map<MonT>& kmt = mt;
+    bool ptr = cX.data() == bx.p && mX.data() == bx.p && kmX.data() == bx.p && cX.coeffs().data() == bx.p && mX.coeffs().data() == bx.p && kmX.coeffs().data() == bx.p
+            && ct.data() == bt.p && mt.data() == bt.p && kmt.data() == bt.p && ct.coeffs().data() == bt.p && mt.coeffs().data() == bt.p && kmt.coeffs().data() == bt.p;
+    LOG.cell("view-data-is-user-pointer/" + GN(), ptr ? 0 : 1);
+    if (!ptr) viol("view-data-is-not-the-user-pointer");
+    // write Y / s into the buffers (once through the mutable view, once directly) while the const views exist
+    const Dig refY = constOps(Y, X, s, t, p);
+    for (int how = 0; how < 2; ++how) {
+      bx.load(X.coeffs()); bt.load(t.coeffs());
+      if (how == 0) { mX = Y; mt = s; } else { bx.load(Y.coeffs()); bt.load(s.coeffs()); }
+      Guarded bx2(REP, 2), bt2(DOF, 2); bx2.load(X.coeffs()); bt2.load(t.coeffs());
+      const Eigen::Map<const MonG> oX(bx2.p); const Eigen::Map<const MonT> ot(bt2.p);
+      bool live = sameBits(constOps(cX, oX, ct, ot, p), refY);
+      LOG.cell(std::string("const-view-sees-later-writes/") + (how ? "direct" : "through-mutable-view") + "/" + GN(), live ? 0 : 1);
+      if (!live) viol(std::string("const-view-is-stale/") + (how ? "direct-write" : "write-through-mutable-view"));
+      // the same for a const view used as the argument of a binary operation
+      Dig a1, a2; put(a1, X.compose(cX).coeffs()); put(a1, X.rminus(cX).coeffs()); put(a1, (s + ct).coeffs()); put(a2, X.compose(Y).coeffs()); put(a2, X.rminus(Y).coeffs()); put(a2, (s + s).coeffs());
+      if (!sameBits(a1, a2)) viol(std::string("const-view-argument-is-stale/") + (how ? "direct-write" : "write-through-mutable-view"));
+    }
+    bx.load(X.coeffs()); bt.load(t.coeffs());
+  }
   // ---- copy / move construction preserve coefficients exactly ----------------------------------------------------------
   {
     Eigen::Map<const MonG> cX(bx.p); Eigen::Map<MonG> mX(bx.p);
